@@ -181,7 +181,29 @@ func genPart(cfg Config, emit func(string, bool, []string)) {
 			// moved node taken from the version before
 			stem := [][]byte{{}, {'s'}, {0}}[r.IntN(3)]
 			k := func(suffix string) string { return hx(append(append([]byte{}, stem...), []byte(suffix)...)) }
+			// first a transaction on the EMPTY tree that inserts keys and deletes them all again: it changed
+			// the tree (dirty) although the root is nil before and after; small nodes with the byte 0xff last
+			for _, q := range []string{"", "e", "e1"} {
+				g.emit("vprefix 0 %s", k(q))
+				g.emit("vget 0 %s", k(q))
+			}
+			g.emit("vrootwatch 0")
 			g.emit("txn 0")
+			g.emit("ins %s 70", k("e1"))
+			g.emit("ins %s 71", k("e\xff"))
+			g.emit("ins %s 72", k("e2"))
+			g.emit("del %s", k("e\xff"))
+			g.emit("get %s", k("e\xff"))
+			g.emit("prefix %s", k("e\xff"))
+			g.emit("del %s", k("e1"))
+			g.emit("del %s", k("e2"))
+			g.emit("commit")
+			g.addVer(0)
+			g.head = g.nvers - 1
+			g.emit("closed")
+			g.emit("notify")
+			g.emit("closed")
+			g.emit("txn %d", g.head)
 			g.emit("ins %s 1", k("x"))
 			withLeaf := r.IntN(3) != 0
 			if withLeaf {
@@ -194,7 +216,7 @@ func genPart(cfg Config, emit func(string, bool, []string)) {
 				g.emit("ins %s 4", k("abd"))
 			}
 			g.emit("commit")
-			g.addVer(0)
+			g.addVer(g.head)
 			g.head = g.nvers - 1
 			g.emit("notify")
 			for round := 0; round < 3; round++ {
@@ -360,6 +382,11 @@ func genPart(cfg Config, emit func(string, bool, []string)) {
 					g.emit("mod %s %d", hx(k), r.IntN(1000))
 				case x < 70:
 					g.emit("del %s", hx(k))
+					if r.IntN(3) == 0 {
+						// the deleted key must be gone for point and prefix lookups too
+						g.emit("get %s", hx(k))
+						g.emit("prefix %s", hx(k))
+					}
 				case x < 76:
 					g.emit("get %s", hx(k))
 				case x < 80:
